@@ -50,7 +50,14 @@ def data(p):
     n, d = p['n'], p['d']
     X = torch.randn(n, d, generator=g)
     Xv = torch.randn(max(16, n // 2), d, generator=g)
+    if p.get('zero_inflated'):
+        # a column that is exactly 0 for most rows (a rare indicator / zero-inflated count): a node split along it has inter-quartile
+        # range 0, so its gating scale sits on the fit-time floor
+        for Z in (X, Xv):
+            Z[:, 0] = torch.where(torch.rand(Z.shape[0], generator=g) < 0.8, torch.zeros(Z.shape[0]), Z[:, 0].abs() + 0.5)
     Xt = torch.cat([torch.randn(30, d, generator=g), X[:10], 1e4 * torch.randn(5, d, generator=g)])
+    if p.get('zero_inflated'):
+        Xt[:20, 0] = 0.0
     if p.get('cat'):
         def onehots(m):
             return torch.cat([torch.nn.functional.one_hot(torch.randint(0, L_, (m,), generator=g), L_).float() for L_ in p['cat']], dim=1)
@@ -248,6 +255,14 @@ def gen_cases(run):
                           bandwidth=5.0, iters=1, L=1000, n=[90, 140][k // 2], d=3, method='random', trees=1 + k // 2, f=0.0,
                           mode=['zero_one', 'prevalence'][k // 2], metric=metric, tune=False, temp=None, space=None, set_temp_after=None,
                           keep=0.99, cap=12, outputs=1, classes=2, pickle=bool(k % 2), dseed=r.randint(0, 10 ** 6)))
+    # nodes whose gating scale sits on the floor (inter-quartile range 0 along an axis-aligned split), soft routing, fixed and tuned
+    for k in range(4):
+        cases.append(dict(family='fitted-models', task=['reg', 'class'][k % 2], kernel=list(KERNELS[k % len(KERNELS)]), q=1.0, diag=False,
+                          adaptive=False, bandwidth=5.0, iters=1, L=40, n=140, d=3, method='rf_criterion', trees=1, f=0.0,
+                          mode=['zero_one', 'prevalence'][k // 2], metric=None, tune=bool(k // 2), temp=None if k // 2 else 0.3,
+                          space=[0.3, 1.0] if k // 2 else None, set_temp_after=None, keep=0.99, cap=12, outputs=1, classes=2, pickle=bool(k % 2),
+                          dseed=r.randint(0, 10 ** 6), zero_inflated=True))
+    # a positive temperature configured in the constructor while tuning selects hard routing (None), and the converse
     for k, (space, temp) in enumerate([([0.0], 0.3), ([0.0, 0.3], 0.3), ([0.4], None)]):
         cases.append(dict(family='fitted-models', task=['reg', 'class', 'reg'][k], kernel=list(KERNELS[k]), q=1.0, diag=False, adaptive=k == 1,
                           bandwidth=5.0, iters=1, L=24, n=90, d=3, method='random', trees=1 + (k % 2), f=0.0, mode='prevalence',
